@@ -187,6 +187,9 @@ func ruleSSAColumns(p *Prog, l *Ledger, tier string) {
 	// --- events
 	ER := armTable(eRead, isMapLookupOf(eRead.Params[2]), "ssaEvent", "store")
 	ES := armTable(eStr, isElemOf(eStr.Params[1]), "ssaEvent", "read")
+	if len(ES) == 0 {
+		ES = mapLiteralTable(eStr, isElemOf(eStr.Params[1]), "ssaEvent")
+	}
 	compareTables(l, rule, "event-printed-vs-read", ES, ER, "ssaEvent.string", "newSSAEventFromString", 10)
 	// columns announced by WriteToSSA
 	cols := strset{}
@@ -743,6 +746,54 @@ func updateFormatTable(fn *ssa.Function) map[string]string {
 	for k, n := range names {
 		if f, ok := fields[k]; ok {
 			out[n] = f
+		}
+	}
+	return out
+}
+
+// mapLiteralTable: the row writer keeps "column name → rendered value" in a map literal built from the fields of the
+// object and looks the columns of the format up in it: column → the one field its value is computed from (directly,
+// through a helper or a closure, or – for a value chosen among constants – through the tests that choose it).
+func mapLiteralTable(fn *ssa.Function, isTag func(v ssa.Value) bool, tname string) map[string]string {
+	out := map[string]string{}
+	for _, b := range fn.Blocks {
+		for _, ins := range b.Instrs {
+			lk, ok := ins.(*ssa.Lookup)
+			if !ok || !isTag(lk.Index) {
+				continue
+			}
+			mk, ok := lk.X.(*ssa.MakeMap)
+			if !ok {
+				continue
+			}
+			for _, r := range *mk.Referrers() {
+				mu, ok := r.(*ssa.MapUpdate)
+				if !ok {
+					continue
+				}
+				k, ok := constStr(mu.Key)
+				if !ok {
+					continue
+				}
+				fs := strset{}
+				traceFieldOrGetter(mu.Value, fs)
+				traceField(mu.Value, tname, map[ssa.Value]bool{}, fs)
+				if c, isCall := mu.Value.(*ssa.Call); isCall {
+					for _, a := range c.Call.Args {
+						traceField(a, tname, map[ssa.Value]bool{}, fs)
+					}
+				}
+				if ph, isPhi := mu.Value.(*ssa.Phi); isPhi && len(fs) == 0 {
+					for _, pb := range ph.Block().Preds {
+						for _, dc := range dominatingConds(pb) {
+							traceField(dc.cond, tname, map[ssa.Value]bool{}, fs)
+						}
+					}
+				}
+				if f, one := oneOf(fs); one {
+					out[k] = f
+				}
+			}
 		}
 	}
 	return out
